@@ -138,8 +138,8 @@ theorem decode_encode_token_xls (ctx : Ctx) (stkEmpty : Bool) (t : Tok) (hwf : t
     decodeTokXls ctx stkEmpty (encXls t ++ rest) = .ok (actOf (envOfXls ctx) true t, rest) :=
   decode_encode_xls ctx stkEmpty t hwf rest
 
-/-- xlsb: same statement (rows < 2^32, strings < 2^16 units); 3-D tokens must index inside the
-    extern-sheet table (`&sheets[ixti]` is unchecked in the code: known robustness finding) -/
+/-- xlsb: same statement (rows < 2^32, strings < 2^16 units); 3-D tokens index inside the
+    extern-sheet table (outside it the decoder prints `#REF`) -/
 theorem decode_encode_token_xlsb (ctx : Ctx) (t : Tok) (hwf : t.wf false) (hs : t.sheetOk ctx.sheets.length)
     (rest : Bytes) :
     decodeTokXlsb ctx (encXlsb t ++ rest) = .ok (actOf (envOfXlsb ctx) false t, rest) :=
@@ -287,25 +287,36 @@ end Xlsx
 /-! ## offsets: the stack of string offsets never goes wrong -/
 
 /-- `Inv`: the stack is sorted and every entry is inside the buffer.  Every edit preserves it, and from such a
-    state the ONLY panic an edit can raise is the unchecked `FTAB[iftab]` index: `split_off`, `insert`,
-    `*s -= start` and the `fargs[w0..w1]` slices of both `parse_formula`s can never fail, whatever the token
-    stream (this is also what makes character offsets and Rust's UTF-8 byte offsets interchangeable in the
-    model: every offset used is a former buffer length and the text before it is never edited afterwards) -/
+    state NO edit panics: `split_off`, `insert`, `*s -= start` and the `fargs[w0..w1]` slices of both
+    `parse_formula`s can never fail, whatever the token stream (this is also what makes character offsets and
+    Rust's UTF-8 byte offsets interchangeable in the model: every offset used is a former buffer length and the
+    text before it is never edited afterwards) -/
 theorem offsets_never_panic (a : Act) (s : St) (h : Inv s) :
-    (∀ s', applyAct a s = .ok s' → Inv s') ∧ (∀ m, applyAct a s = .panic m → m = "FTAB index") :=
-  applyAct_inv a s h
+    (∀ s', applyAct a s = .ok s' → Inv s') ∧ (∀ m, applyAct a s ≠ .panic m) :=
+  ⟨(applyAct_inv a s h).1, fun m hm => (applyAct_inv a s h).2 m hm⟩
 
-/-- for ANY byte string, a panic of the xls decoder is one of: an unchecked `rgce[..]` slice (truncated token),
-    `iname - 1` on a zero name index, or an unchecked function-table index — the robustness findings recorded
-    for C06 — and never an offset computation -/
-theorem xls_panics_classified (ctx : Ctx) (rgce : Bytes) (m : String) (h : parseFormulaXls ctx rgce = .panic m) :
-    m = "slice" ∨ m = "iname - 1" ∨ m = "FTAB_ARGC index" ∨ m = "FTAB index" :=
-  parseFormulaXls_panic ctx rgce m h
+/-- **xls decoder is total** (C06 re-exports this): for ANY context and ANY byte string, `parse_formula` returns
+    `Ok` or `Err` — it never panics: every token's length is checked (`rgce_need`), `FTAB` is read with `get`,
+    a zero name index is `#REF!`, and the offset edits cannot fail (`offsets_never_panic`) -/
+theorem parseFormulaXls_no_panic (ctx : Ctx) (rgce : Bytes) (m : String) : parseFormulaXls ctx rgce ≠ .panic m :=
+  (parseFormulaXls_total ctx rgce).1 m
 
-/-- same for xlsb, whose 3-D arms also index the extern-sheet table unchecked -/
-theorem xlsb_panics_classified (ctx : Ctx) (rgce : Bytes) (m : String) (h : parseFormulaXlsb ctx rgce = .panic m) :
-    m = "slice" ∨ m = "iname - 1" ∨ m = "FTAB_ARGC index" ∨ m = "sheets index" ∨ m = "FTAB index" :=
-  parseFormulaXlsb_panic ctx rgce m h
+/-- … and the loop budget `rgce.length` the model gives the `while` loop is never exhausted: every arm consumes
+    its token (so the Rust loop terminates after at most `rgce.len()` iterations) -/
+theorem parseFormulaXls_fuel (ctx : Ctx) (rgce : Bytes) : parseFormulaXls ctx rgce ≠ .outOfFuel :=
+  (parseFormulaXls_total ctx rgce).2
+
+/-- **xlsb decoder is total**, nested PtgMemFunc sub-formulas included; an extern-sheet index outside the table
+    is `#REF` -/
+theorem parseFormulaXlsb_no_panic (ctx : Ctx) (rgce : Bytes) (m : String) : parseFormulaXlsb ctx rgce ≠ .panic m :=
+  (parseFormulaXlsb_total ctx rgce).1 m
+
+theorem parseFormulaXlsb_fuel (ctx : Ctx) (rgce : Bytes) : parseFormulaXlsb ctx rgce ≠ .outOfFuel :=
+  (parseFormulaXlsb_total ctx rgce).2
+
+/-- `parse_defined_names` (xls Lbl formulas) is total too -/
+theorem definedNameXls_no_panic (rgce : Bytes) (m : String) : definedNameXls rgce ≠ .panic m :=
+  (definedNameXls_total rgce).1 m
 
 example : Inv ⟨"A1+B2".toList, [0, 3]⟩ := by
   constructor
